@@ -9,7 +9,7 @@ from __future__ import annotations
 
 from .. import pkggen as pg
 from .. import structure as st
-from ..core import Check, Viol, drive, gated_features, generic_replay, rng_for
+from ..core import Check, Viol, drive, gated_features, generic_replay, rng_for, noise_opts
 from ..run import Case
 from ..stubs import StubSet
 
@@ -50,7 +50,7 @@ def gen(tier: str, seed: int) -> list[Case]:
         cfg.n_modules = (4, 9)
         cfg.n_decls = (5, 14)
         pkg = pg.random_pkg(rng, cfg)
-        opts = ["-nc"] if i % 3 == 1 else []
+        opts = (["-nc"] if i % 3 == 1 else []) + noise_opts(seed, PID, i)
         cases.append(Case(cid=f"c03-{i}", files=pg.render(pkg), opts=opts, meta={"pkg": pkg}, reach=REACH))
     return cases
 
